@@ -6,15 +6,18 @@
 
     - [wf_cow K sk], the boolean check of the copy-on-write / writer-lock
       discipline that makes every operation ATOMIC:  all writes and stores, and
-      every group of two or more reads/loads of guarded state, happen inside
-      ONE critical section of the writer lock [K]; the store that publishes a
-      new object is the last access to guarded state of its operation;
+      all reads of plain fields that some method writes, happen inside the
+      critical section of the writer lock [K]; the lock is not released while
+      such accesses are still to come; outside it an operation may at most load
+      the published pointer, once; the store that publishes a new object is the
+      last access to guarded state of its operation;
     - [wf_skel K sk := wf_locks sk && wf_cow K sk] — the check the generated
       [Gen/RepoSkel.v] has to pass ([Example repo_skel_wf]);
     - [skel_cex] — what to print when it does not pass;
     - [seq_run], the sequential specification: the same path executed alone,
       atomically, with VALUE semantics for objects (loading a pointer yields a
-      snapshot, cloning copies it, storing publishes the copy);
+      snapshot, cloning copies it, storing publishes the copy); linearizability
+      w.r.t. it is proved in [C07/Lin.v];
     - the sequential repository machine used by the stress stream. *)
 From HV Require Import Base.Prelude Base.Locks.
 
